@@ -35,6 +35,12 @@ func parallelScenario(seed int64, popSize, preset, fitness int) (*genetics.Popul
 	opts := presetOpts(preset, popSize)
 	opts.EpochExecutorType = neat.EpochExecutorTypeParallel
 	opts.MutateAddNodeProb, opts.MutateAddLinkProb = 0.3, 0.5 // several species append to and scan the registry per epoch
+	if seed%2 == 1 {
+		// many species from the very first epoch on: whatever a fresh Options / Population object initialises lazily is
+		// then first touched by several reproduction goroutines at once
+		opts.CompatThreshold = 0.15
+		opts.MutateAddNodeProb = 0.6
+	}
 	pop, err := genetics.NewPopulation(richStart(), opts)
 	return pop, opts, err
 }
@@ -119,15 +125,46 @@ func raceEpochs(args []string) int {
 	_ = fs.Parse(args)
 	rep := &vhu.Report{Command: "race-epochs"}
 	multi := 0
+	firstEpochSpecies := []int{}
+	// (a) first-use runs: fresh Options / Population objects whose FIRST parallel epoch already has many species, each of
+	// which is likely to perform a novel structural mutation (lazy initialisation touched by several goroutines at once)
+	for run := 0; run < 2**runs; run++ {
+		rand.Seed(*seed*7000 + int64(run))
+		opts := presetOpts(run, []int{60, 90, 120}[run%3])
+		opts.EpochExecutorType = neat.EpochExecutorTypeParallel
+		opts.CompatThreshold = []float64{0.1, 0.2, 0.35}[run%3]
+		opts.MutateAddNodeProb, opts.MutateAddLinkProb, opts.MutateOnlyProb = 0.5, 0.4, 0.6
+		start := richStart()
+		if run%2 == 1 {
+			start = vhu.ReadGenomeString(vhu.XorStartGenome, 1)
+		}
+		pop, err := genetics.NewPopulation(start, opts)
+		if err != nil {
+			fmt.Fprintln(os.Stderr, err)
+			return 2
+		}
+		firstEpochSpecies = append(firstEpochSpecies, len(pop.Species))
+		ex := &genetics.ParallelPopulationEpochExecutor{}
+		ctx := neat.NewContext(context.Background(), opts)
+		frng := rand.New(rand.NewSource(*seed + int64(run)))
+		for gen := 1; gen <= 2; gen++ {
+			assignFitness(pop, 6, frng, gen)
+			if len(pop.Species) > 1 {
+				multi++
+			}
+			if err := ex.NextEpoch(ctx, gen, pop); err != nil {
+				break
+			}
+			rep.Evaluations++
+		}
+	}
+	// (b) longer runs
 	for run := 0; run < *runs; run++ {
 		sizes := []int{12, 30, 60}
 		pop, opts, err := parallelScenario(*seed*1000+int64(run), sizes[run%3], run, 6)
 		if err != nil {
 			fmt.Fprintln(os.Stderr, err)
 			return 2
-		}
-		if run%2 == 1 {
-			opts.CompatThreshold = 0.3 // many species
 		}
 		ex := &genetics.ParallelPopulationEpochExecutor{}
 		ctx := neat.NewContext(context.Background(), opts)
@@ -144,6 +181,10 @@ func raceEpochs(args []string) int {
 			rep.Evaluations++
 		}
 	}
+	if rep.Extra == nil {
+		rep.Extra = map[string]interface{}{}
+	}
+	rep.Extra["species_in_first_epoch"] = firstEpochSpecies
 	rep.Nontrivial = multi
 	rep.Cases = *runs
 	return rep.Write(*repf)
